@@ -133,7 +133,7 @@ class MpscuEngine(Engine):
     model_file = "Chan/MpscU.v"
 
     def n_cases(self, tier):
-        return 2500 if tier == "quick" else 60000
+        return 1000 if tier == "quick" else 60000
 
     def split(self, line):
         t = line.split()
